@@ -96,6 +96,7 @@ pub struct RC {
     pub enc: Vec<u8>,
     pub mode_r: ModeR,
     pub exports: HashMap<(Vec<u8>, usize), Result<Vec<u8>, Fail>>,
+    pub fail_open_armed: bool,
 }
 
 pub struct World {
@@ -110,6 +111,16 @@ pub struct World {
     pub tx: crate::util::Fnv,
     /// C16: fewest AeadNonce drops seen during a successful open, per opening interface
     pub nonce_drops_ok: [Option<u64>; 2],
+    /// key-object scope of this world (see suites::set_key_scope)
+    pub id: u64,
+}
+
+static NEXT_WORLD_ID: std::sync::atomic::AtomicU64 = std::sync::atomic::AtomicU64::new(1);
+
+impl Drop for World {
+    fn drop(&mut self) {
+        crate::suites::purge_key_scope(self.id);
+    }
 }
 
 pub type V = Result<(), Violation>;
@@ -156,7 +167,7 @@ fn out_class<T>(r: &Result<T, Fail>) -> String {
 
 impl World {
     pub fn new(p: P) -> World {
-        World { p, keys: vec![], scs: vec![], rcs: vec![], idents: vec![], recs: vec![], ev_idx: 0, tx: crate::util::Fnv::new(), nonce_drops_ok: [None, None] }
+        World { p, keys: vec![], scs: vec![], rcs: vec![], idents: vec![], recs: vec![], ev_idx: 0, tx: crate::util::Fnv::new(), nonce_drops_ok: [None, None], id: NEXT_WORLD_ID.fetch_add(1, std::sync::atomic::Ordering::Relaxed) }
     }
 
     pub fn viol(&self, inv: &str, expected: String, observed: String) -> Violation {
@@ -485,7 +496,7 @@ impl World {
         if model_only {
             if let Some((ctx, _)) = refr {
                 let ident = self.intern(ident_v);
-                *slot(&mut self.rcs, c) = Some(RC { cfg: cfg.clone(), real: None, twin: None, refc: Some(ctx), ident, m_seq: 0, m_over: false, sk_r, enc, mode_r: mode, exports: HashMap::new() });
+                *slot(&mut self.rcs, c) = Some(RC { cfg: cfg.clone(), real: None, twin: None, refc: Some(ctx), ident, m_seq: 0, m_over: false, sk_r, enc, mode_r: mode, exports: HashMap::new(), fail_open_armed: false });
                 cov.hit("setup_r.model_only");
             }
             return Ok(());
@@ -538,7 +549,7 @@ impl World {
             None
         };
         let ident = self.intern(ident_v);
-        *slot(&mut self.rcs, c) = Some(RC { cfg: cfg.clone(), real: Some(ctx), twin, refc: refr.map(|x| x.0), ident, m_seq: 0, m_over: false, sk_r, enc, mode_r: mode, exports: HashMap::new() });
+        *slot(&mut self.rcs, c) = Some(RC { cfg: cfg.clone(), real: Some(ctx), twin, refc: refr.map(|x| x.0), ident, m_seq: 0, m_over: false, sk_r, enc, mode_r: mode, exports: HashMap::new(), fail_open_armed: false });
         Ok(())
     }
 
